@@ -32,7 +32,11 @@ RULE = ("sentences generated from the grammar expr := term (('*'|'/'|dot) term)*
         "caller editing the mappings parse_unit_string handed out (item assignment, pop, clear); "
         "every reply is judged by the reference parser on the string of that call alone, every "
         "mapping / quantity / array / definition obtained earlier is looked at again; the same "
-        "history goes to the Lean session model (`runS`)")
+        "history goes to the Lean session model (`runS`).  Exponents also at the boundary values of "
+        "an unbounded integer (around 2^15 .. 2^100, long decimals; never next to a '^(p/q)' power).  "
+        "Sessions in which define_unit NAMES a symbol the history's strings use (define-as), "
+        "clear_unit_definitions() in between, and histories that start a new process (also run in a "
+        "fork of a fresh interpreter)")
 ASSUMPTIONS = ["the scanner in Model/UnitParse.lean mirrors what re.fullmatch + finditer do for the "
                "pinned pattern texts; that is validated by this run (exhaustively over short "
                "strings in the thorough tier), not proved",
@@ -177,8 +181,19 @@ def ref_parse(s):
 
 
 # ------------------------------------------------------------------ sentence generator
+# boundary values of an INT (the grammar says "signed integers": no upper bound): around the powers
+# of two where machine integers / binary floating point stop holding every integer, and long
+# decimal numbers; the harness reads them with Python's exact int
+BIG_EXPONENTS = ([sg * (2 ** k + d) for k in (15, 24, 31, 32, 52, 53, 54, 63, 64, 100) for d in (-1, 0, 1)
+                  for sg in (1, -1)] + [10 ** 15 + 1, 10 ** 16 + 1, 10 ** 20 + 7, -(10 ** 20 + 7),
+                                        9007199254740993, -9007199254740993, 10 ** 40 + 1])
+
+
 def gen_power(rng):
     r = rng.random()
+    if r < 0.06:
+        n = rng.choice(BIG_EXPONENTS)
+        return str(n), F(n)
     if r < 0.70:
         n = rng.choice([-9, -4, -3, -2, -1, 1, 2, 3, 4, 7, 12, 0])
         s = str(n)
@@ -287,11 +302,17 @@ def gen_strings(rng, n):
         "*a", "((a))", "(a(b))", "m^(1/0)", "1", "m1", "a/1", "a^+2", "a^-", "a^(1/2", "a^-2b",
         "a" * 30 + "!", "kilogram*meter*second^-2*ampere^-1 ", "a" + X.DOT + "b", "a/b/c", "a/b*c", "a/bc", "a/b^2c", "a/(b*c)d", "kg⋅m^2⋅s^-2",
         "(a\n*b)", "kg*(m\n/s)", "(a\n)", "a\nb", "a\n", "\na", "(\n)", "m^(1/2\n)", "a(b\tc)",
+        "m^9007199254740993", "kg/m^-18446744073709551617s^2", "a^2147483648b",
         "(a\rb)", "a_b", "\u00b5m", "m\u00b2", "(\u03a9)", "a^\u0663"]]
     while len(out) < n:
         syms = rng.sample(X.SYMS, rng.randint(1, 4))
         e = gen_expr(rng, syms, True, rng.choice([1, 2, 2, 3, 4, 5, 6, 8, 10, 12]))
         s = render(e)
+        if "^(" in s and re.search(r"[0-9]{5,}", s):
+            # a boundary integer next to a '^(p/q)' power: the library keeps fractional powers (the
+            # printer's form, not an INT of the statement's grammar) as floats by design, and
+            # float + 2^64 is not what C12 judges; boundary integers meet integers only
+            continue
         if rng.random() < 0.08:
             s = "1/" + s
             e = [(None, [])] + [("/" if i == 0 else op, fs) for i, (op, fs) in enumerate(e)]
@@ -312,6 +333,10 @@ def judge(strings, replies):
         st, val = X.impl_parse(s)
         dist[origin] += 1
         dist["expected:" + ("accept" if exp is not None else "reject")] += 1
+        if exp is not None and any(abs(v) > 2 ** 53 for _, v in exp):
+            dist["exponent of magnitude above 2^53 (boundary integers)"] += 1
+        elif exp is not None and any(abs(v) >= 2 ** 15 - 1 for _, v in exp):
+            dist["exponent of magnitude 2^15 .. 2^53 (boundary integers)"] += 1
         if st == "reject":
             dist["impl-reject:" + val] += 1
         if exp is not None and origin == "sentence" and nontrivial(s):
@@ -495,8 +520,18 @@ def api_check(strings):
 #   ["edit", h, "pop", key]       d.pop(key)
 #   ["edit", h, "clear"]          d.clear()
 #   ["read", h]                   look at the mapping / quantity / array / definition of step h
+#   ["define-as", s, name]       define_unit(name, s) where name is a SYMBOL that strings of the
+#                                 same history use: session state of another feature (the
+#                                 definitions) next to the parser; a string still reads as written
+#   ["undefine"]                  clear_unit_definitions(): afterwards every name is a plain symbol
+#                                 again (not a request of the Lean parse-session model, whose
+#                                 replies depend on the string alone: it is shown a no-op read)
+#   ["fresh"]  (first step only)  the history starts a NEW PROCESS: no reset / clear of the harness
+#                                 before it (run in a fork of a fresh interpreter; in a used
+#                                 process the harness resets: same meaning)
 ENTRIES = ["parse", "ctor", "setter", "array-ctor", "array-setter", "define", "repeated-ctor",
-           "wrap-ctor", "xy-ctor-x", "xy-ctor-y", "xy-xunit", "xy-yunit"]
+           "wrap-ctor", "xy-ctor-x", "xy-ctor-y", "xy-xunit", "xy-yunit", "define-as"]
+DEFINES = ("define", "define-as")
 PROBE_SYM = "Zq"        # a symbol no generated string and no definition contains
 
 
@@ -516,11 +551,30 @@ def session_expect(hist):
     ref_parse of their own string, handles by the harness's own dict operations"""
     held = {}
     out = []
+    defs = {}       # the harness's own table of definitions: name -> [(sym, Fraction)]
+
+    def seen_through_defs(i):
+        # a definition is looked at through a product (see session_run.look): the name of step i
+        # expanded by the definitions in force at that moment (names defined in terms of others)
+        name = hist[i][2] if hist[i][0] == "define-as" else _def_name(i)
+        return X.sem(X.expand([(name, F(1))], defs))
+
     for i, st in enumerate(hist):
         if st[0] in ENTRIES:
             r = ref_parse(st[1])
             held[i] = None if r is None else dict(r)
+            if st[0] in DEFINES and r is not None:
+                defs[st[2] if st[0] == "define-as" else _def_name(i)] = list(r)
+                out.append(("ok", seen_through_defs(i)))
+                continue
             out.append(("reject",) if r is None else ("ok", X.sem(held[i])))
+        elif st[0] == "fresh":
+            out.append(("skip",))
+        elif st[0] == "undefine":
+            defs.clear()
+            out.append(("skip",))
+        elif st[0] == "read" and hist[st[1]][0] in DEFINES:
+            out.append(("skip",) if held.get(st[1]) is None else ("ok", seen_through_defs(st[1])))
         elif st[0] == "edit":
             d = held.get(st[1])
             if d is None or hist[st[1]][0] != "parse":
@@ -546,7 +600,10 @@ def session_run(q, hist):
     """the history on the real library -> per step ('ok', sem) | ('reject', class) | ('skip',)"""
     import warnings
     from qexpy.utils import units as U
-    X.reset(q)
+    if hist and list(hist[0]) == ["fresh"] and X.PROCESS["virgin"]:
+        X.PROCESS["virgin"] = False      # nothing is requested before the first step
+    else:
+        X.reset(q)
     held = {}
     out = []
 
@@ -603,10 +660,18 @@ def session_run(q, hist):
                         d = q.XYDataSet(xdata=[1.0, 2.0], ydata=[3.0, 4.0], xunit="Q^3/x", yunit="mol")
                         setattr(d, st[0][3:], s)
                         held[i] = (st[0], list(d.xdata if st[0] == "xy-xunit" else d.ydata))
+                    elif st[0] == "define-as":
+                        q.define_unit(st[2], s)
+                        held[i] = ("define", st[2])
                     else:
                         q.define_unit(_def_name(i), s)
                         held[i] = ("define", _def_name(i))
                     out.append(("ok", look(i)))
+                elif st[0] == "fresh":
+                    out.append(("skip",))
+                elif st[0] == "undefine":
+                    q.clear_unit_definitions()
+                    out.append(("skip",))
                 elif st[0] == "edit":
                     if st[1] not in held or held[st[1]][0] != "parse":
                         out.append(("skip",))
@@ -678,6 +743,13 @@ def session_judge(hist, obs, model=None):
             oo = o[:2] if o[0] == "ok" else None
             if exp[i][0] == "skip" or (o[0] == "skip"):
                 continue
+            src = st[0] if st[0] in ENTRIES else hist[st[1]][0]
+            if src in DEFINES and st[0] != "edit":
+                # the model's reply is the reading of the string; the harness looks at a definition
+                # through the names in force (expansion is C18's model, not this one)
+                plain = ref_parse(st[1] if st[0] in ENTRIES else hist[st[1]][1])
+                if plain is None or exp[i] != ("ok", plain):
+                    continue
             if mm != oo:
                 fails.append({"signature": "c12:session-model-differs:{}".format(st[0]),
                               "kind": "disagreement", "input": {"history": hist, "step": i},
@@ -700,7 +772,13 @@ def _step_text(st):
                 "wrap-ctor": "MeasurementArray([<measurements>], unit={!r})",
                 "xy-ctor-x": "XYDataSet(.., xunit={!r})", "xy-ctor-y": "XYDataSet(.., yunit={!r})",
                 "xy-xunit": "xy.xunit = {!r}", "xy-yunit": "xy.yunit = {!r}",
-                "define": "define_unit(name, {!r})"}[st[0]].format(st[1])
+                "define": "define_unit(name, {!r})",
+                "define-as": "define_unit({!r}, {{!r}})".format(st[2] if len(st) > 2 else "?")
+                }[st[0]].format(st[1])
+    if st[0] == "fresh":
+        return "(new process)"
+    if st[0] == "undefine":
+        return "clear_unit_definitions()"
     if st[0] == "edit":
         if st[2] == "set":
             return "result_of_step_{}[{!r}] = {}".format(st[1], st[3], F(st[4], st[5]))
@@ -711,16 +789,26 @@ def _step_text(st):
 
 
 def session_model_steps(hist):
-    return [["parse", st[1]] if st[0] in ENTRIES else st for st in hist]
+    return [["parse", st[1]] if st[0] in ENTRIES else (["read", 0] if st[0] in ("undefine", "fresh") else st)
+            for st in hist]
 
 
 def session_classes(hist):
     """which deliberate scenario classes a history contains"""
     cl = set()
     seen, edited, rejected_since = {}, set(), {}
+    named = set()
     for i, st in enumerate(hist):
         if st[0] in ENTRIES:
             s = st[1]
+            r = ref_parse(s)
+            if r is not None and named & {k for k, _ in r}:
+                cl.add("string that uses a symbol named by define_unit earlier ({})".format(
+                    "parse" if st[0] == "parse" else "other entry"))
+            if st[0] == "define-as" and r is not None:
+                named.add(st[2])
+                cl.add("define_unit names a symbol of the history's strings" +
+                       (" (first step)" if i == 0 else ""))
             if s in seen:
                 cl.add("same string again")
                 if seen[s] != st[0]:
@@ -736,6 +824,12 @@ def session_classes(hist):
                 for t in seen:
                     rejected_since[t] = True
                 cl.add("rejected call")
+        elif st[0] == "fresh":
+            cl.add("history starts a new process (no reset before it)")
+        elif st[0] == "undefine":
+            if named:
+                cl.add("clear_unit_definitions() after a symbol was named, strings parsed again")
+            named = set()
         elif st[0] == "edit":
             edited.add(hist[st[1]][1])
             cl.add("edit:" + st[2])
@@ -744,13 +838,32 @@ def session_classes(hist):
     return cl
 
 
+_POOLS = {}
+
+
+def _written_syms(s):
+    return set(re.findall(r"[a-zA-Z]+", s))
+
+
 def gen_session(rng, pool):
     """one history over 1-3 accepted strings of the pool, their near-identical variants and a
     rejected string; every accepted string is handed out, the result is edited, and the string is
     used again through several entry points; at the end every string is parsed once more and
     every handle is looked at"""
-    good = [s for s, e, _ in pool if e is not None and e != () and len(s) <= 24]
-    bad = [s for s, e, _ in pool if e is None and 0 < len(s) <= 24]
+    key = (id(pool), len(pool))
+    if _POOLS.get("key") != key:        # the three views of the pool are made once per pool
+        _POOLS.update(key=key,
+                      good=[s for s, e, _ in pool if e is not None and e != () and len(s) <= 24],
+                      bad=[s for s, e, _ in pool if e is None and 0 < len(s) <= 24])
+        _POOLS["small"] = [s for s in _POOLS["good"] if not re.search(r"[0-9]{5,}", s)] or ["m/s"]
+    good, bad = _POOLS["good"], _POOLS["bad"]
+    # some histories NAME compound units with symbols that their strings use (define_unit is
+    # session state of another feature; a string must still read as written, C12-12 class).
+    # Such histories use no boundary exponents: a definition is looked at through a product, in
+    # which the library's float arithmetic on (1/2)*2^64 would be judged, not the parser.
+    with_names = rng.random() < 0.5
+    if with_names:
+        good = _POOLS["small"]
     base = rng.sample(good, min(len(good), rng.randint(1, 3)))
     words = list(base)
     for s in base:
@@ -759,14 +872,32 @@ def gen_session(rng, pool):
             words.append(rng.choice(vs))
     if bad and rng.random() < 0.7:
         words.append(rng.choice(bad))
-    hist = []
+    # a quarter of the histories start a process (executed in a fork of a fresh interpreter too)
+    hist = [["fresh"]] if rng.random() < 0.25 else []
     content = {}          # "parse" step with an accepted string -> what its caller holds now
 
-    def entry(kind, s):
-        hist.append([kind, s])
+    used = set()          # symbols in the expressions of the definitions made so far
+
+    def entry(kind, s, name=None):
+        hist.append([kind, s] + ([name] if name else []))
         r = ref_parse(s)
         if kind == "parse" and r is not None:
             content[len(hist) - 1] = dict(r)
+        if kind in DEFINES and r is not None:
+            used.update(_written_syms(s))
+
+    def name_a_symbol():
+        """define_unit(<a symbol of the history's strings>, <another string>): never a cycle (the
+        name is neither in its own expression nor in any expression defined so far)"""
+        syms = sorted({k for w in words for k, _ in (ref_parse(w) or ())} - used)
+        if not syms:
+            return
+        name = rng.choice(syms)
+        # symbols as WRITTEN (K^0 and K/K mention K although its exponent is 0: still a cycle)
+        cands = [t for t in (rng.choice(good) for _ in range(12)) if name not in _written_syms(t)][:3]
+        cands += [t for t in ["kg*m/s^2", "kg*m^2/s^2", "s^-1", "kg/(m*s^2)", "A*s", "m^2"]
+                  if name not in _written_syms(t)]
+        entry("define-as", rng.choice(cands), name)
 
     def edit(h):
         d = content[h]
@@ -788,22 +919,35 @@ def gen_session(rng, pool):
             hist.append(["edit", h, "clear"])
             d.clear()
 
+    if with_names and rng.random() < 0.6:
+        name_a_symbol()          # first thing in the session, as a script does
     for s in base:
         entry(rng.choice(["parse", "parse", "ctor", "define", "array-setter"]), s)
+        if with_names and rng.random() < 0.3:
+            name_a_symbol()
         entry("parse", s)
         h = len(hist) - 1
         for _ in range(rng.randint(1, 3)):
             edit(h)
-        for kind in rng.sample(ENTRIES, rng.randint(2, 4)) + ["parse"]:
+        for kind in rng.sample([e for e in ENTRIES if e != "define-as"], rng.randint(2, 4)) + ["parse"]:
             entry(kind, s)
+    if with_names:
+        for _ in range(rng.randint(1, 2)):
+            name_a_symbol()
+    plain_entries = [e for e in ENTRIES if e != "define-as"]
     for _ in range(rng.randint(2, 8)):
         r = rng.random()
         if r < 0.65 or not content:
-            entry(rng.choice(ENTRIES), rng.choice(words))
+            entry(rng.choice(plain_entries), rng.choice(words))
         elif r < 0.9:
             edit(rng.choice(sorted(content)))
         else:
             hist.append(["read", rng.choice([i for i, st in enumerate(hist) if st[0] in ENTRIES])])
+    if with_names and rng.random() < 0.35:
+        hist.append(["undefine"])        # the names are plain symbols again
+        used.clear()
+        if rng.random() < 0.5:
+            name_a_symbol()              # ... and a symbol is named anew
     n = len(hist)
     for s in dict.fromkeys(words):
         entry("parse", s)
@@ -814,6 +958,12 @@ def gen_session(rng, pool):
 
 
 FIXED_SESSIONS = [
+    [["define-as", "kg*m/s^2", "N"], ["parse", "N/m"], ["ctor", "N/m"], ["parse", "N*m"],
+     ["define-as", "N*m", "J"], ["parse", "J/(kg*K)"], ["read", 0], ["read", 4], ["parse", "N/m"]],
+    [["fresh"], ["define-as", "kg*m/s^2", "N"], ["parse", "N/m"], ["undefine"], ["parse", "N/m"],
+     ["ctor", "kg*m/s^2"], ["read", 1], ["read", 5]],
+    [["define-as", "kg*m/s^2", "N"], ["ctor", "N/m"], ["undefine"], ["parse", "N/m"], ["read", 0],
+     ["read", 1], ["define-as", "kg*m^2/s^2", "N"], ["parse", "N/m"], ["read", 0], ["read", 1]],
     [["parse", "m/s"], ["edit", 0, "set", "s", -2, 1], ["parse", "m/s"], ["ctor", "m/s"],
      ["read", 0]],
     [["ctor", "kg*m/s^2"], ["parse", "kg*m/s^2"], ["edit", 1, "pop", "kg"], ["read", 0],
@@ -868,6 +1018,7 @@ def run_sessions(ctx, hists, ref=False, use_model=True):
     dist = collections.Counter()
     steps = 0
     room, confirmed, tried = None, 0, 0
+    fresh_room = None
     for h, m in zip(hists, replies):
         obs = session_run(q, h)
         steps += len(h)
@@ -877,6 +1028,15 @@ def run_sessions(ctx, hists, ref=False, use_model=True):
         for st in h:
             dist["session step: " + (st[0] if st[0] not in ENTRIES else "entry " + st[0])] += 1
         fs = session_judge(h, obs, m)
+        if not fs and h and list(h[0]) == ["fresh"]:
+            # the same history where it belongs: in a process in which nothing happened before
+            fresh_room = fresh_room or C.CleanRoom("props.c12")
+            ans = fresh_room.replay({"session": h})
+            dist["session histories executed in a new process"] += 1
+            if ans.get("fails") and ans.get("failures"):
+                failures.append(dict(ans["failures"][0], session=h, carries_history=True,
+                                     reproduces_alone=True))
+                continue
         for f in fs[:1]:
             if f.get("oracle") == "independent":
                 # confirm and shorten the history in a CLEAN ROOM (a new process per attempt):
@@ -898,6 +1058,8 @@ def run_sessions(ctx, hists, ref=False, use_model=True):
             failures.append(f)
     if room:
         room.close()
+    if fresh_room:
+        fresh_room.close()
     return failures, dict(dist), steps
 
 
